@@ -510,13 +510,25 @@ class HostBFM:
             elif kind == "drain":
                 # fetch IN packets from a stream endpoint until it has nothing more to give (bounded)
                 name = self.rig.in_ports[op["ep"]]
-                for _ in range(op.get("max", 40)):
+                # The bound counts only polls that cannot make progress any more: while the producer is still
+                # feeding (slow in_valid / tx_ready patterns make that take hundreds of cycles) NAKs are expected
+                # and do not count; the drain ends at the SECOND consecutive NAK seen with nothing left to feed
+                # (the first may fall between the last byte being taken and the packet becoming ready).
+                quiet_naks = 0
+                budget = op.get("max", 40)
+                for _ in range(600):
                     yield from self._transaction(i, dict(op="in", ep=op["ep"], ack=1))
                     if self.run.txns[-1]["resp"] == M.NAK:
                         if not self.feed_q[name] and self.feed_cur[name] is None:
-                            break
+                            quiet_naks += 1
+                            if quiet_naks >= 2:
+                                break
                         yield from self._idle(24)
                     else:
+                        quiet_naks = 0
+                        budget -= 1
+                        if budget <= 0:
+                            break
                         yield from self._idle(3)
             else:
                 yield from self._transaction(i, op)
